@@ -3,7 +3,7 @@
    every run (tools/tr_c20_mir2c.py -> coq/gen/Mir2cTable.v): each row is the C text out_insn prints
    for one opcode, parsed back into Mir/CExpr.v statements. *)
 From Coq Require Import ZArith List Bool.
-From MirV Require Import Base.W64 Mir.DocSpec Mir.CExpr C02.RowCheck C02.Table C20.Mir2cCheck C20.ConstPrint gen.Mir2cTable C20.Mir2cFacts.
+From MirV Require Import Base.W64 Mir.DocSpec Mir.CExpr C02.RowCheck C02.Table C20.Mir2cCheck C20.ConstPrint C20.AddrPrint gen.Mir2cTable C20.Mir2cFacts.
 Import ListNotations.
 
 (* every template, for ALL operand values on which MIR.md defines the instruction: the emitted C
@@ -57,3 +57,31 @@ Print Assumptions mir2c_constant_converts_like_variable.
 Theorem mir2c_constant_zero_test : forall z v, (- 2 ^ 64 < z < 2 ^ 64)%Z -> u64 z = u64 v -> (z =? 0)%Z = (s64 v =? 0)%Z.
 Proof. exact nonzero_test. Qed.
 Print Assumptions mir2c_constant_zero_test.
+
+(* memory operands.  For EVERY form of a memory operand -- displacement zero or not, base register present or absent,
+   index register present or absent, scale 1, 2, 4 or 8: one row per combination, re-read on every run from what out_op
+   prints (tools/tr_c20_addr.py) -- and ALL values of the displacement (printed as a decimal constant that the C
+   compiler reads back as int, long or __int128: mir2c_const_print) and of the two registers (int64_t variables), the
+   parenthesised C expression under the pointer cast evaluates (at the types C gives its parts, two's complement
+   wrap-around) to an integer whose low 64 bits -- the pointer it is converted to -- are the address MIR.md defines,
+   disp + base + index * scale modulo 2^64 with absent parts contributing nothing *)
+Theorem mir2c_mem_address :
+  forall f e, In (f, e) mir2c_addr_table -> addr_row_sound mir2c_disp_fmt f e.
+Proof. exact mir2c_addr_rows_sound. Qed.
+Print Assumptions mir2c_mem_address.
+
+Theorem mir2c_mem_forms_total :
+  forall d b i s, In s [1; 2; 4; 8]%Z ->
+  exists e, In ({| af_disp := d; af_base := b; af_index := i; af_scale := s |}, e) mir2c_addr_table.
+Proof. exact mir2c_addr_rows_total. Qed.
+Print Assumptions mir2c_mem_forms_total.
+
+(* ... and the object type the pointer cast names for each MIR memory type (i8 ... u64, p, f, d, ld) makes the C load
+   `r = *(T * ) a` into a register variable the documented load (narrow integers sign- or zero-extended to 64 bits by
+   the signedness of the memory type) and the C store `*(T * ) a = r` the documented store (truncation to the type) *)
+Theorem mir2c_mem_types :
+  forall ty, exists mt, In (ty, mt) mir2c_memtype_table
+    /\ (forall bytes, stmt_load (SLoad (reg_cty ty) mt) bytes = Some (load_ext ty bytes))
+    /\ (forall p rest, stmt_store (p :: rest) (SStore mt (EVar 0 (reg_cty ty))) = Some (store_trunc ty p)).
+Proof. exact mir2c_memtypes_sound. Qed.
+Print Assumptions mir2c_mem_types.
